@@ -18,6 +18,7 @@ import argparse, ast, concurrent.futures as cf, copy, json, os, random, shutil, 
 
 VERIF = os.path.dirname(os.path.dirname(os.path.abspath(__file__)))
 REPO = "/repo"
+NEWOPS = bool(os.environ.get("MUT_NEWOPS"))  # campaign 3 operators (delctl, argswap, dropkw, dropwrap); off = the site list of campaigns 1-2
 WRAPPERS = {"UInt32", "Int32", "UInt16", "Int16", "UInt8", "Int8", "UInt64", "Int64", "int", "MutableUInt32", "abs"}
 CMP = {ast.Lt: ast.LtE, ast.LtE: ast.Lt, ast.Gt: ast.GtE, ast.GtE: ast.Gt, ast.Eq: ast.NotEq, ast.NotEq: ast.Eq, ast.Is: ast.IsNot, ast.IsNot: ast.Is, ast.In: ast.NotIn, ast.NotIn: ast.In}
 BIN = {ast.Add: ast.Sub, ast.Sub: ast.Add, ast.Mult: ast.FloorDiv, ast.FloorDiv: ast.Mult, ast.Mod: ast.FloorDiv, ast.LShift: ast.RShift, ast.RShift: ast.LShift, ast.BitAnd: ast.BitOr, ast.BitOr: ast.BitAnd, ast.BitXor: ast.BitAnd, ast.Pow: ast.Mult}
@@ -82,6 +83,23 @@ def sites(tree):
             out.append((i, "unwrap", n.func.id))
         elif isinstance(n, ast.Expr) and isinstance(n.value, ast.Call) and n not in doc and not isinstance(parents.get(n), (ast.Module, ast.ClassDef)):
             out.append((i, "delstmt", "call"))
+        elif NEWOPS and isinstance(n, (ast.Raise, ast.Continue, ast.Break)) or NEWOPS and isinstance(n, ast.Return) and isinstance(parents.get(n), (ast.If, ast.For, ast.While, ast.Try, ast.With)):
+            # campaign 3: dropped validation / dropped early exit
+            out.append((i, "delctl", type(n).__name__))
+        if NEWOPS and isinstance(n, ast.Call) and not in_annotation(n):
+            # campaign 3: 'semantic slip' operators - swapped adjacent positional arguments, a keyword argument that is
+            # not forwarded (callee default applies)
+            pos = [x for x in n.args if not isinstance(x, ast.Starred)]
+            if len(pos) == len(n.args) and len(pos) >= 2:
+                for k in range(len(pos) - 1):
+                    if ast.dump(pos[k]) != ast.dump(pos[k + 1]):
+                        out.append((i, "argswap", str(k)))
+            for k, kw in enumerate(n.keywords):
+                if kw.arg is not None:
+                    out.append((i, "dropkw", kw.arg))
+        if NEWOPS and isinstance(n, ast.BinOp) and isinstance(n.op, (ast.Mod, ast.BitAnd)) and not (isinstance(n.left, ast.Constant) and isinstance(n.left.value, str)) and not in_annotation(n):
+            # campaign 3: wrap / mask dropped on one path
+            out.append((i, "dropwrap", type(n.op).__name__))
         elif isinstance(n, ast.Assign) and not isinstance(parents.get(n), (ast.Module, ast.ClassDef)):
             out.append((i, "delstmt", "assign"))
     return out
@@ -132,8 +150,15 @@ def mutate(src, site):
         node.test = ast.UnaryOp(op=ast.Not(), operand=node.test)
     elif op == "unwrap":
         replace(node, node.args[0])
-    elif op == "delstmt":
+    elif op in ("delstmt", "delctl"):
         replace(node, ast.Pass())
+    elif op == "argswap":
+        k = int(detail)
+        node.args[k], node.args[k + 1] = node.args[k + 1], node.args[k]
+    elif op == "dropkw":
+        node.keywords = [kw for kw in node.keywords if kw.arg != detail]
+    elif op == "dropwrap":
+        replace(node, node.left)
     ast.fix_missing_locations(tree)
     return ast.unparse(tree), getattr(node, "lineno", 0)
 
@@ -211,6 +236,7 @@ def main():
     ap.add_argument("--one")
     ap.add_argument("--show", action="store_true")
     ap.add_argument("--all-checks", action="store_true")
+    ap.add_argument("--only-ops")
     a = ap.parse_args()
     anc = anchors()
     files = sorted(anc) if not a.files else [f for f in a.files.split(",")]
@@ -244,6 +270,8 @@ def main():
             done.add((d["file"], tuple(d["site"])))
     for f in files:
         s = list(allsites[f])
+        if a.only_ops:
+            s = [x for x in s if x[1] in a.only_ops.split(",")]
         rng.shuffle(s)
         for site in s[: a.per_file]:
             if (f, tuple(site)) not in done:
